@@ -115,6 +115,20 @@ CLAIMED = {
          'Trusted: Lean kernel, solver recording by monkeypatching inside the harness process, independent constraint formulas of the harness.',
          'Lean 4 invariant by induction over operation histories with oracle solver outputs + history-level correspondence with the real SP + direct coherence/constraint/purity falsifier',
          'DESIGN.md section 5 C10'),
+ 'C09': ('Partial proof: machine-checked theorems (Lean 4) about a model of SPIKinSpace and of the whole SPFKinSpaceR loop: IK lengths are the joint-to-joint distances; moving both plates by one rigid motion leaves them unchanged, so they depend only on inv(bottom)*top; '
+         'the residual the FK loop tests is exactly L_i^2 minus the squared IK length at the guessed relative pose; whenever the loop stops on its residual test (any linear solver, start, budget) the summed residual is below tol_f and hence every published leg length is within tol_f/L_i of the requested one, at any base placement. '
+         'The model (Float instance, Gaussian elimination for np.linalg.solve) is compared with the numba kernels: final guess 1e-9, iteration count and exit kind exactly. '
+         'That the iteration converges to the pose the lengths came from (FK(IK(pose)) = pose to 1e-3 h, both fk modes, moved / re-spun platforms) is decided on the implementation (sampled), as are lengths after a small-step exit.',
+         'Trusted: Lean kernel, Mathlib, geometry generator and independent numpy leg-length reference; scipy fsolve is not modelled.',
+         'Lean 4 proofs about the IK kernel and the Newton-Raphson loop (exit soundness by induction over iterations) + bit-level differential correspondence with the numba kernels + FK(IK) falsifier on real platforms',
+         'DESIGN.md section 5 C09'),
+ 'C11': ('Partial proof: machine-checked theorems (Lean 4, Mathlib calculus) about the rows [q x n, n] built by SP.inverseJacobian and the wrench sum of SP.sumActuatorWrenches: the moment arm may be taken from either joint (t x n = b x n); '
+         'row . twist is the leg-direction component of the top joint velocity, and the leg length along any differentiable path of the top joint whose velocity is that of a rigid motion with spatial twist V has derivative row . V (HasDerivAt); '
+         'for any leg forces the summed leg wrench on the base is minus invJ^T tau (induction over legs), hence forces carrying W load the base with -W and map back to W. '
+         'The model functions are compared with the real methods; the derivative (Richardson), equilibrium, body-frame and carryMassCalc clauses are evaluated on real platforms at arbitrary placements (the last two sampled only).',
+         'Trusted: Lean kernel, Mathlib, independent exp6/Ad/leg lengths in the harness; np.linalg.pinv is an oracle (inverse of an invertible matrix).',
+         'Lean 4 proofs (vector algebra by certificates, HasDerivAt for the length derivative, induction over legs) + differential correspondence + Richardson / equilibrium falsifier on real platforms',
+         'DESIGN.md section 5 C11'),
 }
 NA_REASON = 'check not built yet in this round (work in progress; DESIGN.md section 8 gives the build order)'
 
